@@ -1236,7 +1236,11 @@ func loopBlock(b *ssa.BasicBlock) bool {
 
 func checkC04(c *Ctx) {
 	R := c.R
-	defer func() { ruleKeyIdentClassified(c, c.Core()) }()
+	defer func() {
+		ruleKeyIdentClassified(c, c.Core())
+		c.Core().buildSSA()
+		ruleNumberViaParseFloat(c, c.Core(), "C04.numparse")
+	}()
 	R.Explain = "Decided: (C04.dfa) the numeric-literal recogniser's transition table is extracted from tryParseNumber's switch skeleton by constant propagation and proved " +
 		"equivalent, on ALL strings (exhaustive product-automaton search), to the documented form [+-]?D+(.D+)?((e|E)[+-]D+|*(10)?^[+-]?D+)? with the NAME/ERROR split; " +
 		"(C04.num2float) both exponent spellings are rewritten to e before strconv.ParseFloat in every conversion site; (C04.trie) every keyword of the manual's table is cut out " +
